@@ -1100,7 +1100,9 @@ class Executor:
             return Int(z3.SignExt(w - aw, e) if asg else z3.ZeroExt(w - aw, e), s)
         if kind.startswith('FloatToInt'):
             w, s = INT_TYPES[t]
-            return Int(self.float_to_int(a.e, w, s), s)
+            r = Int(self.float_to_int(a.e, w, s), s)
+            st.event('f2i', w, s, r.e, a.e)
+            return r
         if kind.startswith('IntToFloat'):
             sort = F64 if t == 'f64' else F32
             src = (a.e, a.signed) if (sort is F64 and a.width <= 32) else None
